@@ -148,7 +148,10 @@ class RangeIndex(Index):
 
 
 class DatetimeIndex(Index):
-    def __init__(self, data=None, dtype=None, name=None, copy=False, **kw):
+    _tz = None
+
+    def __init__(self, data=None, dtype=None, name=None, copy=False, tz=None, **kw):
+        self._tz = tz
         if isinstance(data, (Series, Index)):
             name = name if name is not None else data.name
             data = data.values_arr() if isinstance(data, Series) else data.arr
@@ -184,12 +187,23 @@ class DatetimeIndex(Index):
 
     def tz_localize(self, tz):
         if tz is None:
-            return self
+            return DatetimeIndex(self.arr, name=self.name)
         raise Unsupported("tz_localize(tz)")
 
     @property
     def tz(self):
-        return None
+        return self._tz
+
+    @property
+    def dtype(self):
+        if self._tz is not None:
+            return TzDtype()
+        return self.arr._dt
+
+    def astype(self, t):
+        if self._tz is not None:
+            raise TypeError("Cannot use .astype to convert from timezone-aware dtype to timezone-naive dtype.")
+        return DatetimeIndex(self.arr.astype(t), name=self.name)
 
 
 class _IsoCal:
